@@ -360,8 +360,10 @@ def parseAndWriteOutput(file: str, output_dir: str, config: Config,
                 with open(output_file, "w") as output:
                     output.writelines(json_string)
 
-                    if delete_after_parsing:
-                        os.remove(file)
+                # Only remove the original once the output file has been
+                # completely written and closed without error.
+                if delete_after_parsing:
+                    os.remove(file)
             else:
                 print(f"No PEL parsed for {file}", file=sys.stderr)
         except Exception as e:
@@ -418,10 +420,11 @@ def deletePELFromPELId(path: str, pelID: str) -> None:
         print("PEL not found")
 
 
-def parseAndPrintPELFile(file_path: str, config: Config, exit_on_error: bool) -> None:
+def parseAndPrintPELFile(file_path: str, config: Config, exit_on_error: bool) -> bool:
     """
     Parses a PEL file and prints the JSON string representation.
-    Returns: None
+    Returns: True if the PEL was decoded and its output completely printed,
+             False otherwise.
     """
     try:
         with open(file_path, 'rb') as fd:
@@ -433,8 +436,11 @@ def parseAndPrintPELFile(file_path: str, config: Config, exit_on_error: bool) ->
                     print(json_string)        
                 else:
                     printPELInHexFormat(data)
+                sys.stdout.flush()
+                return True
     except Exception as e:
         print(f"Exception: No PEL parsed for {file_path}: {e}", file=sys.stderr)
+    return False
 
 
 def parsePelFromID(path: str, config: Config) -> None:
@@ -882,8 +888,8 @@ def main():
         config.extension = args.extension
 
     if args.file:
-        parseAndPrintPELFile(args.file, config, True)
-        if args.clean:
+        printed = parseAndPrintPELFile(args.file, config, True)
+        if args.clean and printed:
             os.remove(args.file)
         sys.exit(0)
 
